@@ -403,6 +403,7 @@ class VarInt(Family):
 
 
 class MaxSize(Family):
+    no_history_pool = True       # cases are too heavy to be replayed in every ordered pair
     """a script / witness item of MAX_SIZE-1 and exactly MAX_SIZE (0x02000000) bytes is inside the wire range and must
     round-trip; the encoding followed by one byte raises the extra-data error"""
     name = 'max_size_boundary'
